@@ -1,3 +1,7 @@
+#[cfg(feature = "verif")]
+#[allow(unused_imports)]
+use qbice_verif_rt::{parking_lot, std};
+
 use std::sync::OnceLock;
 
 use crossbeam_utils::CachePadded;
